@@ -263,6 +263,9 @@ func (lc *layoutCtx) isBE16Append(fn *types.Func) bool {
 	if fn.Pkg() == nil || fn.Pkg().Path() != modPath {
 		return false
 	}
+	if lc.isBE16AppendViaPut(fn) {
+		return true
+	}
 	fd := findFuncDecl(lc.pkg, fn.Name())
 	if fd == nil || fd.Body == nil || len(fd.Body.List) != 1 || len(fd.Type.Params.List) != 2 {
 		return false
@@ -309,6 +312,67 @@ func (lc *layoutCtx) isBE16Append(fn *types.Func) bool {
 		}
 	}
 	return true
+}
+
+// isBE16AppendViaPut: func(b []byte, i int) []byte { var v [2]byte; binary.BigEndian.PutUint16(v[:], uint16(i));
+// return append(b, v[:]...) } - decided on the SSA form: a two-byte local array, filled by the library's
+// big-endian 16-bit put from the integer parameter, appended whole to the buffer parameter, nothing else.
+func (lc *layoutCtx) isBE16AppendViaPut(fn *types.Func) bool {
+	sf := lc.p.SSA.FuncValue(fn)
+	if sf == nil || len(sf.Blocks) != 1 || len(sf.Params) != 2 {
+		return false
+	}
+	var arr *ssa.Alloc
+	var put, app *ssa.Call
+	for _, in := range sf.Blocks[0].Instrs {
+		switch x := in.(type) {
+		case *ssa.Alloc:
+			if arr != nil {
+				return false
+			}
+			arr = x
+		case *ssa.Call:
+			if bi, ok := x.Common().Value.(*ssa.Builtin); ok && bi.Name() == "append" {
+				app = x
+				continue
+			}
+			f := x.Common().StaticCallee()
+			if f == nil || f.Name() != "PutUint16" || f.Pkg == nil || f.Pkg.Pkg.Path() != "encoding/binary" || !strings.Contains(f.String(), "bigEndian") {
+				return false
+			}
+			put = x
+		case *ssa.Store, *ssa.MapUpdate, *ssa.Go, *ssa.Defer:
+			return false
+		}
+	}
+	if arr == nil || put == nil || app == nil {
+		return false
+	}
+	at, ok := arr.Type().(*types.Pointer).Elem().Underlying().(*types.Array)
+	if !ok || at.Len() != 2 {
+		return false
+	}
+	wholeArr := func(v ssa.Value) bool {
+		sl, ok := v.(*ssa.Slice)
+		return ok && sl.X == ssa.Value(arr) && sl.Low == nil && sl.High == nil
+	}
+	pargs := put.Common().Args
+	if len(pargs) != 3 || !wholeArr(pargs[1]) {
+		return false
+	}
+	cv, ok := pargs[2].(*ssa.Convert)
+	if !ok || cv.X != ssa.Value(sf.Params[1]) {
+		return false
+	}
+	if b, ok := cv.Type().Underlying().(*types.Basic); !ok || b.Kind() != types.Uint16 {
+		return false
+	}
+	aargs := app.Common().Args
+	if len(aargs) != 2 || aargs[0] != ssa.Value(sf.Params[0]) || !wholeArr(aargs[1]) {
+		return false
+	}
+	ret, ok := sf.Blocks[0].Instrs[len(sf.Blocks[0].Instrs)-1].(*ssa.Return)
+	return ok && len(ret.Results) == 1 && ret.Results[0] == ssa.Value(app) && domInstr(put, app)
 }
 
 func constIntExpr(info *types.Info, e ast.Expr) (int64, bool) {
@@ -596,7 +660,56 @@ func (lc *layoutCtx) subEncoder(typeName, field string) string {
 	return "sub:" + typeName
 }
 
+// extractEncoder: statement-level extraction; for the positional codecs (Header, Packet) the SSA-level
+// extraction of rule_layout_ssa.go is used when the statement-level one meets a spelling it does not read.
 func extractEncoder(p *Program, typeName string) ([]string, []string) {
+	out, errs := extractEncoderAST(p, typeName)
+	if len(errs) > 0 && (typeName == "Header" || typeName == "Packet") {
+		if ef := p.LookupFunc("", typeName+".MarshalBinary"); ef != nil {
+			lcx := &layoutCtx{p: p, pkg: p.Root(), info: p.Root().TypesInfo, vars: map[types.Object]string{}}
+			var e2, x2 []string
+			if typeName == "Header" {
+				e2, x2 = extractHeaderEncoderSSA(p, ef, lcx)
+			} else {
+				e2, x2 = extractPacketEncoderSSA(p, ef)
+			}
+			if len(x2)+len(lcx.errs) == 0 {
+				return e2, nil
+			}
+			dbg("SSA encoder extraction of %s: %v %v", typeName, x2, lcx.errs)
+		}
+	}
+	return out, errs
+}
+
+func extractDecoder(p *Program, typeName string) ([]string, []string) {
+	out, errs := extractDecoderAST(p, typeName)
+	if len(errs) > 0 && (typeName == "Header" || typeName == "Packet") {
+		if df := p.LookupFunc("", typeName+".UnmarshalBinary"); df != nil {
+			lcx := &layoutCtx{p: p, pkg: p.Root(), info: p.Root().TypesInfo, vars: map[types.Object]string{}}
+			var d2, x2 []string
+			if typeName == "Header" {
+				d2, x2 = extractHeaderDecoderSSA(p, df, lcx)
+			} else {
+				d2, x2 = extractPacketDecoderSSA(p, df)
+			}
+			x2 = append(x2, lcx.errs...)
+			hard := 0
+			for _, e := range x2 {
+				if !strings.HasPrefix(e, "VALUE: ") {
+					hard++
+				}
+			}
+			if hard == 0 {
+				return d2, x2
+			}
+			dbg("SSA decoder extraction of %s: %v", typeName, x2)
+		}
+	}
+	return out, errs
+}
+
+func extractEncoderAST(p *Program, typeName string) ([]string, []string) {
 	pkg := p.Root()
 	fd := findMethodDecl(pkg, typeName, "MarshalBinary")
 	if fd == nil || fd.Body == nil {
@@ -999,7 +1112,7 @@ func versionDecoderItem(lc *layoutCtx) string {
 	return "nib:" + hi + "/" + lo
 }
 
-func extractDecoder(p *Program, typeName string) ([]string, []string) {
+func extractDecoderAST(p *Program, typeName string) ([]string, []string) {
 	pkg := p.Root()
 	fd := findMethodDecl(pkg, typeName, "UnmarshalBinary")
 	if fd == nil || fd.Body == nil {
@@ -1238,6 +1351,34 @@ func cursorSummary(fn *ssa.Function, name string) string {
 			hi, ok1 := sh.X.(*ssa.Convert)
 			lo, ok2 := bo.Y.(*ssa.Convert)
 			if ok1 && ok2 && loadAt(hi.X, 0) && loadAt(lo.X, 1) && widerThan8(hi.Type()) {
+				ok = true
+			}
+		}
+		// or int(binary.BigEndian.Uint16(s)) on the cursor (the library reads s[0], s[1] high octet first)
+		for _, v := range rets {
+			cv, isCv := v.(*ssa.Convert)
+			if !isCv {
+				continue
+			}
+			call, isCall := cv.X.(*ssa.Call)
+			if !isCall {
+				continue
+			}
+			f := call.Common().StaticCallee()
+			if f == nil || f.Name() != "Uint16" || f.Pkg == nil || f.Pkg.Pkg.Path() != "encoding/binary" || !strings.Contains(f.String(), "bigEndian") {
+				continue
+			}
+			arg := call.Common().Args[len(call.Common().Args)-1]
+			if ct, isCt := arg.(*ssa.ChangeType); isCt {
+				arg = ct.X
+			}
+			if sl, isSl := arg.(*ssa.Slice); isSl && (sl.Low == nil || isZero(sl.Low)) {
+				arg = sl.X
+			}
+			if ct, isCt := arg.(*ssa.ChangeType); isCt {
+				arg = ct.X
+			}
+			if isS(arg) {
 				ok = true
 			}
 		}
